@@ -767,6 +767,15 @@ fn abort_error(tcb: &Tcb) -> Option<Error> {
 fn abort_with(k: &mut Kernel, fd: Fd, reason: AbortReason) {
     let st = k.lookup_mut(fd).unwrap();
     if let Some(tcb) = st.tcb.as_mut() {
+        // A child still in `SynReceived` was never handed to the
+        // application: it is neither in a listener's ready queue nor
+        // behind a `TcpStream`, so nobody will ever `close` it. Mark
+        // it kernel-closed so `reap_closed` drops the table entry and
+        // its binding / 4-tuple index entries at the end of the next
+        // egress pass.
+        if tcb.state == TcpState::SynReceived {
+            st.fd_closed = true;
+        }
         tcb.state = TcpState::Closed;
         match reason {
             AbortReason::Reset => tcb.reset = true,
